@@ -208,3 +208,8 @@ def run(ctx, rep):
             ok = ok and pend >= 1
         rep.check("R19.3", "%s:pending-only-from-source" % tag, ok, "%s poll_read may return Pending after it has consumed data into a local" % tag, pb.loc(), sample={"adaptor": tag, "pending_blocks": pend})
     rep.floor("R19.3", 1)
+    # "no partial frame is left on the outgoing side": the async write hands one contiguous buffer - the result of one encode -
+    # to one complete-write call (C06's R6.1 / R6.2 for the tokio implementation); two buffers or two calls would put a
+    # suspension point inside a frame
+    from props import c06
+    c06.write_rules(ctx, rep, only="tokio")
